@@ -468,11 +468,14 @@ func (s *MemCachedStore) persist(isSync bool) (int, error) {
 	} else {
 		// We're toast. We'll try to still keep proper state, but OOM
 		// killer will get to us eventually.
-		maps.Copy(tempstore.mem, s.mem)
-		maps.Copy(tempstore.stor, s.stor)
+		// Readers that took tempstore for the lower layer can still be
+		// iterating its maps (under its own lock), so they are left alone.
+		mem, stor := maps.Clone(tempstore.mem), maps.Clone(tempstore.stor)
+		maps.Copy(mem, s.mem)
+		maps.Copy(stor, s.stor)
 		s.ps = tempstore.ps
-		s.mem = tempstore.mem
-		s.stor = tempstore.stor
+		s.mem = mem
+		s.stor = stor
 	}
 	s.mut.Unlock()
 	return keys, err
